@@ -94,6 +94,55 @@ impl Arg for &mut Pl {
     fn keep(self) {}
 }
 
+/// Zero-sized plain element (no destructor, no state): it cannot carry an id, so the closure log uses the virtual id
+/// 1 + (number of elements seen so far) — enough to see *how many* calls were made and that each got one element.
+#[derive(Clone, Debug)]
+struct Zu;
+thread_local! { static ZU_SEEN: RefCell<u64> = RefCell::new(0); }
+fn zu_next() -> u64 {
+    ZU_SEEN.with(|z| {
+        let mut z = z.borrow_mut();
+        *z += 1;
+        *z
+    })
+}
+impl Elem for Zu {
+    const NEEDS_DROP: bool = false;
+    fn mk(_id: u64) -> Zu {
+        Zu
+    }
+    fn eid(&self) -> u64 {
+        0
+    }
+}
+impl Arg for Zu {
+    fn id(&self) -> u64 {
+        zu_next()
+    }
+    fn tag() -> &'static str {
+        "g"
+    }
+    fn keep(self) {}
+}
+impl Arg for &Zu {
+    fn id(&self) -> u64 {
+        zu_next()
+    }
+    fn tag() -> &'static str {
+        "l"
+    }
+    fn keep(self) {}
+}
+impl Arg for &mut Zu {
+    fn id(&self) -> u64 {
+        zu_next()
+    }
+    fn tag() -> &'static str {
+        "l"
+    }
+    fn keep(self) {}
+}
+
 /// the closure body shared by map/zip/fold: log the arguments, maybe panic, return a fresh element
 fn call1<A: Arg>(i: &mut u64, a: A) -> Tr {
     let k = *i;
@@ -309,6 +358,7 @@ where
     HELD.with(|h| quiet(|| h.borrow_mut().clear()));
     HELD_PL.with(|h| h.borrow_mut().clear());
     CALL_PANIC.with(|c| *c.borrow_mut() = None);
+    ZU_SEEN.with(|z| *z.borrow_mut() = 0);
     POLLED_AFTER_NONE.with(|p| *p.borrow_mut() = false);
     let op = get(kv, "op");
     let form = get(kv, "form");
@@ -779,6 +829,7 @@ fn main() {
 
 fn run_kinds<N: ArrayLength>(kv: &KV) -> String {
     match (get(kv, "kind"), get(kv, "kind2")) {
+        ("zu", _) => run::<N, Zu, Tr>(kv),
         ("pl", "pl") => run::<N, Pl, Pl>(kv),
         ("pl", _) => run::<N, Pl, Tr>(kv),
         (_, "pl") => run::<N, Tr, Pl>(kv),
